@@ -80,6 +80,9 @@ structure Cand where
   bad : Bool := false
   id : Nat := 0
   qs : List Question := []
+  /-- header bits of the reply (TC, AA, QR, rcode …) as one word: carried so
+  that the theorems quantify over them; `Exchange` never looks at them. -/
+  hdr : Nat := 0
 deriving Repr, DecidableEq
 
 inductive XRes
